@@ -141,6 +141,21 @@ func handleSubStr(params internal.HandlerFuncParams) ([]byte, error) {
 		end = len(value) - internal.AbsInt(end)
 	}
 
+	// Clamp both indices into the string: an index before the first byte reads from the start,
+	// an index past the last byte reads from the end.
+	if start < 0 {
+		start = 0
+	}
+	if start > len(value) {
+		start = len(value)
+	}
+	if end < 0 {
+		end = 0
+	}
+	if end > len(value) {
+		end = len(value)
+	}
+
 	if end >= 0 && end >= start {
 		end += 1
 	}
